@@ -76,7 +76,7 @@ CLAIMED = {
             'note': "Trusted: core contracts as seen by the wrappers (proved by C01-C03/C23; the log summary of a step by composition of the _spy_on contract, C02's offer protocol and the core frame), deque/list contracts, functools.wraps; user code does not touch instrumentation fields." + ' Handlers answer client events with TRAN/HANDLED/UNHANDLED/SUPER.', 'technique': TECH},
     'C21': {'text': 'the four live-output wrappers verified around an abstract step with arbitrary (possibly repeating) clock '
                     'readings: trace callback exactly once per new record, spy callback once per line in order.',
-            'note': "Trusted: core contracts as seen by the wrappers (proved by C01-C03/C23; the log summary of a step by composition of the _spy_on contract, C02's offer protocol and the core frame), deque/list contracts, functools.wraps; user code does not touch instrumentation fields." + ' The writer thread of ActiveObject (FIFO queue) is assumed.', 'technique': TECH},
+            'note': "Trusted: core contracts as seen by the wrappers (proved by C01-C03/C23; the log summary of a step by composition of the _spy_on contract, C02's offer protocol and the core frame), deque/list contracts, functools.wraps; user code does not touch instrumentation fields." + ' Of the writer of ActiveObject, __init__ (line queue without a bound) and _print (one item per line) are under contract; its thread function and FIFO order of queue.Queue are assumed.', 'technique': TECH},
     'C17': {'category': 'translation_validation',
             'text': 'two halves. (a) deductive, unbounded: the template handler (base_state_method + signal_callback + '
                     'parent_callback) satisfies the handler table for every registry content and event kind; '
